@@ -10,7 +10,7 @@ RULE = ("TraceKernel.tla is a law table evaluated by TLC on recorded evaluation 
         "standard deviations; means (0,0) and (3,-2); variances (1,1), (1/4,4), (1e-4,1e4), (1e-8,4e-8), (4,1), (1e-12,1e-12)). Per correlation rho and its negative: "
         "range [0,1], monotone in each argument, rectangle mass >= -1e-7, tails 0/1, both marginals = Phi table, value at the mean = "
         "1/4 + asin(rho)/(2 pi) at rho in {sin(pi/12), 1/2, sqrt2/2, sqrt3/2, sin(5pi/12)} (one in every branch of the algorithm incl. "
-        ">= 0.925), reflection identity F(h,k;rho)+F(h,-k;-rho) = Phi(h); seams: the two sides of every branch threshold (0.3, 0.75, 0.925, "
+        ">= 0.925), reflection identity F(h,k;rho)+F(h,-k;-rho) = Phi(h), symmetry in the two arguments, Frechet-Hoeffding bounds; Slepian monotonicity in rho between every pair of consecutive correlations (which sandwiches interior values between neighbours); seams: the two sides of every branch threshold (0.3, 0.75, 0.925, "
         "both signs) agree within 1e-7 + eps/(pi sqrt(1-rho^2)) (bound verified by TLC by squaring); |rho| -> 1 limit; zero covariance: "
         "gaussian, sbvn_cdf, norm_cdf = Phi table / product to 1e-12; uniform = exact box CDF (rational). "
         "Non-trivial = every grid; distinct = (kind, rho, variances, mean). No state space: level exploration.")
@@ -52,6 +52,14 @@ def run(ctx):
             mu = MUS[(vi + len(name)) % 2] if min(v) >= 1e-4 else MUS[0]   # a non-zero mean with a tiny sd would put x - mu off the lattice by cancellation
             meta.append(("grid", name, anc, mu, v, len(jobs)))
             jobs += [bvn(rho, mu, v), bvn(-rho, mu, v)]
+    # Slepian pairs: consecutive correlations (both signs) on the same mean and variances
+    allr = sorted({r0 for _, r0, _ in rhos} | {-r0 for _, r0, _ in rhos} | {0.0})
+    v0 = VARS[1]
+    slep_at = len(jobs)
+    for r0 in allr:
+        jobs.append(bvn(r0, MUS[1], v0) if r0 != 0.0 else dict(kind="product", ts=TS, mu=list(MUS[1]), vx=v0[0], vy=v0[1]))
+    for q in range(len(allr) - 1):
+        meta.append(("slepian", (allr[q], allr[q + 1]), None, MUS[1], v0, slep_at + q))
     eps = 1e-6
     for r0, frac in ((0.3, (3, 10)), (0.75, (3, 4)), (0.925, (37, 40))):
         for sgn in (1, -1):
@@ -84,6 +92,9 @@ def run(ctx):
                 rm = abs(a) + eps
                 bound = eps / (math.pi * math.sqrt(1 - rm * rm)) * 1.02
                 cases.append(dict(kind="seam", ts=TS, VA=decode(results[at]["V"]), VB=decode(results[at + 1]["V"]), r0=[b[0], b[1]], bound=fix(Fraction(bound))))
+            elif kind == "slepian":
+                g = lambda rr: decode(rr["V"] if "V" in rr else rr["VG"])
+                cases.append(dict(kind="slepian", ts=TS, VA=g(results[at]), VB=g(results[at + 1])))
             elif kind == "limit":
                 cases.append(dict(kind="limit", ts=TS, V=decode(results[at]["V"])))
             elif kind == "product":
@@ -106,7 +117,7 @@ def run(ctx):
         elif status == "machinery":
             ctx.machinery_errors.append("TraceKernel: %s on %s" % (clause, m[:5]))
         else:
-            rho = m[1] if isinstance(m[1], float) else ANCH.get(m[1], (None,))[0] if m[0] == "grid" else None
+            rho = m[1] if isinstance(m[1], float) else (max(abs(m[1][0]), abs(m[1][1])) if isinstance(m[1], tuple) else (ANCH.get(m[1], (None,))[0] if m[0] == "grid" else None))
             if m[0] == "grid" and rho is None:
                 rho = float(m[1])
             ctx.failure({"clause": clause, "kind": m[0], "abs_rho_ge_0.925": bool(rho is not None and abs(rho) >= 0.925)}, {"kind": "kernel", "meta": [str(x) for x in m[:5]], "at": v[4:6]})
